@@ -13,67 +13,67 @@ PROPS = {
     'C02': {
         'level': 'exploration',
         'strata': [('scripted-finite', 'solver', 0.8), ('parser-built', 'solver_parser', 0.2)],
-        'quick': 24000,
+        'quick': 40000,
         'thorough': 600000,
     },
     'C06': {
         'level': 'fault_enumeration',
         'strata': [('scripted-faults', 'solver_faults', 0.8), ('parser-natural-faults', 'solver_parser', 0.2)],
-        'quick': 24000,
+        'quick': 40000,
         'thorough': 600000,
     },
     'C04': {
         'level': 'exploration',
         'strata': [('parser-built-recorded', 'frame', 1.0)],
-        'quick': 12000,
+        'quick': 20000,
         'thorough': 300000,
     },
     'C05': {
         'level': 'fault_enumeration',
         'strata': [('twin-solve-vs-loops', 'multi', 1.0)],
-        'quick': 20000,
+        'quick': 30000,
         'thorough': 500000,
     },
     'C08': {
         'level': 'exploration',
         'strata': [('scripted-linker', 'linker', 1.0)],
-        'quick': 12000,
+        'quick': 30000,
         'thorough': 300000,
     },
     'C09': {
         'level': 'exploration',
-        'strata': [('histories', 'container', 1.0)],
-        'quick': 12000,
+        'strata': [('histories', 'container', 0.7), ('operation-pairs-systematic', 'pairs', 0.3)],
+        'quick': 16000,
         'thorough': 300000,
     },
     'C10': {
         'level': 'exploration',
         'strata': [('label-histories', 'labels', 0.7), ('mixed-histories', 'container', 0.3)],
-        'quick': 12000,
+        'quick': 16000,
         'thorough': 300000,
     },
     'C11': {
         'level': 'exploration',
         'strata': [('copies-and-siblings', 'copies', 1.0)],
-        'quick': 10000,
+        'quick': 12000,
         'thorough': 250000,
     },
     'C12': {
         'level': 'exploration',
         'strata': [('reindex-histories', 'reindex', 1.0)],
-        'quick': 12000,
+        'quick': 16000,
         'thorough': 300000,
     },
     'C17': {
         'level': 'exploration',
         'strata': [('triplets', 'tracer', 1.0)],
-        'quick': 16000,
+        'quick': 24000,
         'thorough': 400000,
     },
     'C18': {
         'level': 'exploration',
         'strata': [('aliased-vs-canonical-twin', 'alias', 1.0)],
-        'quick': 12000,
+        'quick': 16000,
         'thorough': 300000,
     },
 }
